@@ -141,6 +141,22 @@ def dict_to_paths(root, d):
         return [(root, d)]
 
 
+def _assoc_leaf_update(inverse, path, value, multi_updates):
+    '''Insert the non-dictionary update ``value`` at ``path``.
+
+    If an update is already present at ``path`` (from another port
+    variable wired to the same node) and ``multi_updates`` is set, keep
+    both under the ``_multi_update`` key instead of overwriting the first.
+    '''
+    if multi_updates and path:
+        return update_in(
+            inverse,
+            path[:-1],
+            lambda current: deep_merge_multi_update(
+                current, {path[-1]: value}))
+    return assoc_path(inverse, path, value)
+
+
 def inverse_topology(outer, update, topology, inverse=None, multi_updates=True):
     '''
     Transform an update from the form its process produced into
@@ -181,7 +197,8 @@ def inverse_topology(outer, update, topology, inverse=None, multi_updates=True):
                             lambda current: deep_merge(
                                 current, child_update))
                     else:
-                        assoc_path(inverse, inner, child_update)
+                        inverse = _assoc_leaf_update(
+                            inverse, inner, child_update, multi_updates)
 
         elif key in update:
             value = update[key]
@@ -217,7 +234,8 @@ def inverse_topology(outer, update, topology, inverse=None, multi_updates=True):
                             inner,
                             lambda current: deep_merge(current, value))
                 else:
-                    assoc_path(inverse, inner, value)
+                    inverse = _assoc_leaf_update(
+                        inverse, inner, value, multi_updates)
     return inverse
 
 
